@@ -26,6 +26,7 @@ type callCtx struct {
 	site ssa.Instruction
 	key  string
 	sig  *types.Signature
+	binds []*Val
 }
 
 func (c *callCtx) ret(v *Val) []cont { return []cont{{st: c.st, val: v}} }
@@ -225,6 +226,7 @@ func (ex *Exec) callFunc(st *State, f *ssa.Function, args []*Val, binds []*Val, 
 	key := funcKey(f)
 	ctx.key = key
 	ctx.args = args
+	ctx.binds = binds
 	ex.interfere(st, key)
 	if nat, ok := natives[key]; ok {
 		return nat(ctx)
@@ -488,6 +490,16 @@ func (ex *Exec) pkgOfKey(fc *FuncContract, f *ssa.Function) *types.Package {
 func (ex *Exec) applyContract(ctx *callCtx, fc *FuncContract, f *ssa.Function) []cont {
 	st := ctx.st
 	vars := ex.bindParams(fc, ctx.args, f)
+	if f != nil && len(f.FreeVars) > 0 {
+		if ctx.binds == nil {
+			ex.fail("closure %s called by contract without known bindings", f)
+		}
+		for i, fv := range f.FreeVars {
+			if i < len(ctx.binds) {
+				vars[fv.Name()] = ex.derefBind(st, ctx.binds[i], fv.Type())
+			}
+		}
+	}
 	pkg := ex.pkgOfKey(fc, f)
 	evalIn := func(cur, old *State, c *Clause, vars map[string]*Val) *Term {
 		env := &Env{ex: ex, cur: cur, old: old, vars: vars, pkg: pkg}
@@ -558,6 +570,13 @@ func (ex *Exec) applyContract(ctx *callCtx, fc *FuncContract, f *ssa.Function) [
 	rvars := map[string]*Val{}
 	for k, v := range vars {
 		rvars[k] = v
+	}
+	if f != nil && len(f.FreeVars) > 0 {
+		for i, fv := range f.FreeVars {
+			if i < len(ctx.binds) {
+				rvars[fv.Name()] = ex.derefBind(st, ctx.binds[i], fv.Type())
+			}
+		}
 	}
 	bindResults(fc, res, rvars)
 	for _, c := range fc.Ensures {
